@@ -108,6 +108,7 @@ def _ops(menu):
     for k in ((1,) if menu == "q" else (1, 2)):
         ops.append(["UPS", k])
         ops.append(["UPS", k, False])
+    ops.append(["E", True])  # update with an EMPTY batch and update_params=True: a pure refit
     return ops
 
 
@@ -142,6 +143,8 @@ class Sim:
 
     def batch(self, op):
         """the pd.Series an update-type operation passes"""
+        if op[0] == "E":
+            return self.y_full.iloc[self.pos:self.pos], 0
         if op[0] in ("U", "UPS"):
             k = op[1]
             b = self.y_full.iloc[self.pos:self.pos + k]
@@ -156,6 +159,10 @@ class Sim:
         return b, new
 
     def apply(self, b, consumed, up):
+        if len(b) == 0:
+            if up:
+                self.epoch = dict(self.mem)
+            return
         for t, v in b.items():
             self.mem[int(t)] = float(v)
         self.mem = collections.OrderedDict(sorted(self.mem.items()))
@@ -304,7 +311,7 @@ def _check_state(res, tag, spec, f, sim, hist, fh_fit, refit_eq, cf, pd_before, 
     for idx, _ in p1.value:
         pass
     # update_params=False leaves the fitted parameters untouched
-    if hist and hist[-1][0] in ("U", "O") and hist[-1][-1] is False:
+    if hist and hist[-1][0] in ("U", "O", "E") and hist[-1][-1] is False:
         now = canon.param_digest(f)
         if now != pd_before:
             res.violate("%s:params-changed" % tag, "update(update_params=False) changed fitted "
